@@ -24,6 +24,7 @@ func loadRepo(c *core.Ctx, extra ...string) *load.Prog {
 		c.Undecide("packages bebop / iohelp not found in %s", c.RepoDir)
 		return nil
 	}
+	roleInfo = p.Bebop().TypesInfo
 	return p
 }
 
@@ -367,7 +368,7 @@ func normPrefix(items []wire.Item) []wire.Item {
 func init() { register("C01", checkC01) }
 
 func checkC01(c *core.Ctx) {
-	c.Explainf("C01 (decided clause: encoder/decoder emitters are siblings). The generator's own source is folded over %s; every emitted MarshalBebopTo/EncodeBebop/UnmarshalBebop/MustUnmarshalBebop/DecodeBebop is read into a wire-op signature and the decoders are required to GET exactly what the encoders PUT (same primitives via the resolved iohelp functions, same container walk, same framing, same field set with only deprecated message fields skipped on encode). R6: Size() (hence the length prefix decoders rely on) equals what the encoders write. R7: the iohelp primitives behind the signatures move exactly their width with one Go type both ways, and ErrorReader.Read absorbs read fragmentation. NOT decided: that equal signatures imply equal values for every bit pattern (NaN payloads, time zones, nil-vs-empty) — Go semantics.", "abstract schema shapes (every leaf class x containers to the tier's depth x 32 option sets)")
+	c.Explainf("C01 (decided clause: encoder/decoder emitters are siblings). The generator's own source is folded over %s; every emitted MarshalBebopTo/EncodeBebop/UnmarshalBebop/MustUnmarshalBebop/DecodeBebop is read into a wire-op signature and the decoders are required to GET exactly what the encoders PUT (same primitives via the resolved iohelp functions, same container walk, same framing, same field set with only deprecated message fields skipped on encode). R6: Size() (hence the length prefix decoders rely on) equals what the encoders write. R8: the byte decoders step over every nested record they decode, by 4+len after a message and 5+len after a union (what the encoders put there). R7: the iohelp primitives behind the signatures move exactly their width with one Go type both ways, and ErrorReader.Read absorbs read fragmentation. NOT decided: that equal signatures imply equal values for every bit pattern (NaN payloads, time zones, nil-vs-empty) — Go semantics.", "abstract schema shapes (every leaf class x containers to the tier's depth x 32 option sets)")
 	gr := startGen(c)
 	if gr == nil {
 		return
